@@ -152,6 +152,8 @@ structure Drop where
   e : Note
   /-- targets (of the list still carried) established and neither closing nor closed at that moment -/
   live : List Nat
+  /-- the same over ALL targets captured at emission (including ids `notify_any` pruned earlier) -/
+  liveAll : List Nat
   deriving Repr, Inhabited
 
 structure Dial where
@@ -211,7 +213,7 @@ def State.status (s : State) (id : Nat) : Option Ready :=
   (findConn s.conns id).map (Conn.pollReady s.fixed)
 
 def State.dropNote (s : State) (e : Note) (cur : Target) : State :=
-  { s with dropped := s.dropped ++ [⟨e, s.liveIds cur⟩] }
+  { s with dropped := s.dropped ++ [⟨e, s.liveIds cur, s.liveIds e.tgt⟩] }
 
 /-- the `Some((peer_id, handler, event))` arm of `poll_next_event` (after `take()`): returns the new
 state and whether the event is still pending (`Poll::Pending` from every candidate) -/
